@@ -92,6 +92,12 @@ func (t *Text) GenerateOutput(textOnly bool) string {
 			break
 		}
 
+		// An element that is kept by a pair of Tags is where the markup of the text
+		// itself has to end, even when it is styled as inline.
+		if CanBeNested(dom.TagName(clonedRoot)) {
+			break
+		}
+
 		if srcRoot == nil {
 			srcRoot = domutil.GetNearestCommonAncestor(t.GetTextNodes()...)
 			if srcRoot.Type != html.ElementNode {
